@@ -39,14 +39,14 @@ CLAIMED = {
     "C13": ("exploration", "deterministic simulation (thin): durable .cfg written by one process life and consumed by the next, generation chains",
             "Chains of launches g0 -> saved .cfg -> g1 -> ...; option getters and physics datasets of g1 must equal g0's, the saved file must be a fixed point; g0 may be killed by SIGINT right after the .cfg is written.",
             "Most of the deciding power is seeded generation of option assignments; the simulator contributes the relaunch/file layer only (DESIGN 4 C13).", "4 C13"),
-    "C14": ("fault_enumeration", "deterministic simulation with fault injection: SIGINT raised at every hook point and inside every libhdf5 pwrite of sampled short runs",
-            "For each sampled configuration every interrupt instant (all hook-point hits between the statements of main(), all pwrite calls, plus seeded pairs/triples) is enumerated; each interrupted run must exit 0, report Aborted, leave a readable structurally consistent file, have executed exactly the step in progress, equal bit for bit the run configured to stop at that step, and share all but the last record with the uninterrupted run.",
+    "C14": ("fault_enumeration", "deterministic simulation with fault injection: SIGINT raised at every hook point, inside every libhdf5 pwrite and inside every wall-clock read of sampled short runs",
+            "For each sampled configuration every interrupt instant (all hook-point hits between the statements of main(), all pwrite calls of libhdf5, all wall-clock reads made inside the message routine, plus seeded pairs/triples) is enumerated; each interrupted run must exit 0, report Aborted, leave a readable structurally consistent file, have executed exactly the step in progress, equal bit for bit the run configured to stop at that step, and share all but the last record with the uninterrupted run.",
             "Interrupts inside non-I/O library calls are not simulated (the handler only sets a flag); configurations are sampled.", "4 C14"),
     "C15": ("exploration", "deterministic simulation: entropy seam, long particle histories, edge positions",
-            "API-mode histories of tracked particles under all tracking models with the entropy source simulated; after every step coordinates must stay inside the grid; blob-centre vs particle flow and stochastic ensemble statistics are checked; program mode checks /Particles/data.",
+            "API-mode histories of tracked particles under all tracking models with the entropy source simulated; after every step coordinates must stay inside the grid; blob-centre vs particle flow (kicks, drift, static/dynamic RF, damping/diffusion step) and stochastic ensemble statistics are checked; program mode checks /Particles/data, the final particle record of interrupted runs, and particle-follows-charge through the real main loop.",
             "Statistical clauses use 4-sigma bounds on seeded ensembles.", "4 C15"),
     "C17": ("exploration", "deterministic simulation with fault injection under ASan/UBSan (+valgrind): input-file faults and configuration swarm on the real main()",
-            "Sanitised whole-program launches over the documented configuration domain with damaged input files (truncated, empty, malformed, short/long tables, wrong-size start files, edge particles, read errors); the process must end by itself with status 0/1, no sanitizer or valgrind report, and a message or normal completion.",
+            "Sanitised whole-program launches over the documented configuration domain with damaged input files (truncated, empty, malformed, short/long tables, wrong-size / wrong-type / multi-bunch start files, edge particles, read errors), long histories past 2^k steps, and seeded API-harness histories of C08/C15/C18/C19 run in a child of the sanitised build; the process must end by itself with status 0/1, no sanitizer or valgrind report, and a message or normal completion.",
             "Sampling; uninitialised-value use is only visible in the valgrind tier.", "4 C17"),
     "C18": ("exploration", "deterministic simulation: seeded operation histories on the stateful field object vs a freshly constructed reference object",
             "Histories of Load/Wake/Pad/CSR operations on one ElectricField are compared bit for bit, after every operation, with a fresh object given the current profile; shrinking by ddmin on the op sequence.",
@@ -94,7 +94,7 @@ def main():
         }],
         "checks": [],
         "not_applicable": [],
-        "notes": "See DESIGN.md. Evidence files are rewritten by every run of ./check. known_findings.json lists the one open finding and the repaired defects (19 fix: commits in /repo). tools/seeded.py runs the checks against the seeded changes under /verif/seeded (DESIGN.md section 9).",
+        "notes": "See DESIGN.md. Evidence files are rewritten by every run of ./check. known_findings.json lists the two open findings (both C10) and the repaired defects (20 fix: commits in /repo). tools/seeded.py runs the checks against the seeded changes under /verif/seeded (DESIGN.md section 9).",
     }
     for pid in sorted(CLAIMED):
         cat, tech, text, note, ref = CLAIMED[pid]
